@@ -183,6 +183,9 @@ def _framed(ctx, fi, c, payload):
     # (b) self.<list>[index] where <list> is filled in build() with the framed payload
     if isinstance(payload, ast.Subscript) and isinstance(payload.value, ast.Attribute) and norm(payload.value.value) == "self":
         attr = payload.value.attr
+        # indexed by the callback's own fragment index (the same index that selects the stored message number and the ack slot)
+        if fi.name == "callback" and len(fi.params) >= 2 and norm(payload.slice) != fi.params[1]:
+            return False, "self.%s is indexed by %s, not by the fragment index `%s`" % (attr, norm(payload.slice), fi.params[1])
         fills = [x for x in calls_named(bld, "append") if norm(x.func.value) == "self.%s" % attr]
         ys = [n for n in walk_own(bld.node) if isinstance(n, ast.Yield)]
         if len(fills) == 1 and len(ys) == 1:
